@@ -19,6 +19,11 @@ theorem T.size_eq (t : T) : t.size + 1 = 2 * t.leaves.length := by
   | leaf v => simp [T.size, T.leaves]
   | node l r ihl ihr => simp [T.size, T.leaves]; omega
 
+theorem T.height_succ_le (t : T) : t.height + 1 ≤ t.leaves.length := by
+  induction t with
+  | leaf v => simp [T.height, T.leaves]
+  | node l r ihl ihr => simp only [T.height, T.leaves, List.length_append]; omega
+
 theorem T.height_pos_of_two (t : T) (h : 2 ≤ t.leaves.length) : 1 ≤ t.height := by
   cases t with
   | leaf v => simp [T.leaves] at h
